@@ -1596,6 +1596,52 @@ func c09checkSet(c *Check, an *c09an, fn *ssa.Function, hostInfoT *types.Named, 
 		}
 	}
 	c.Floor("C09.R1:key-components", len(comps), 5)
+	// must-dependence: when a field of the key is assigned on several paths (or
+	// from a φ), every alternative must carry all the components the field is
+	// credited with above – otherwise some lookups use a key that ignores them
+	if ld, ok := get.key.(*ssa.UnOp); ok {
+		if keyAlloc, ok := ld.X.(*ssa.Alloc); ok {
+			byField := map[int][]ssa.Value{}
+			allInstrs(fn, func(in ssa.Instruction) {
+				st, ok := in.(*ssa.Store)
+				if !ok {
+					return
+				}
+				fa, ok := st.Addr.(*ssa.FieldAddr)
+				if !ok || fa.X != ssa.Value(keyAlloc) {
+					return
+				}
+				vals := []ssa.Value{st.Val}
+				if ph, ok := st.Val.(*ssa.Phi); ok {
+					vals = ph.Edges
+				}
+				byField[fa.Field] = append(byField[fa.Field], vals...)
+			})
+			for fi, vals := range byField {
+				if len(vals) < 2 {
+					continue
+				}
+				union := map[string]bool{}
+				per := make([]map[string]bool, len(vals))
+				for i, v := range vals {
+					per[i] = map[string]bool{}
+					for s := range an.walker(f, gv, false).src(v, -1) {
+						per[i][s] = true
+						union[s] = true
+					}
+				}
+				fname := structField(keyAlloc.Type(), fi).Name()
+				for i := range vals {
+					for _, s := range comps {
+						if union[s] && !per[i][s] {
+							c.Bad(fmt.Sprintf("C09.R1:%s:key-field-%s:alternative#%d-includes:%s", name, fname, i+1, c09pretty(fn, s)), c09r1, p.InstrPos(get.call),
+								"one of the alternative values assigned to key field "+fname+" does not depend on "+c09pretty(fn, s)+" although the decision does: on that path two lookups differing only in it share one cache entry")
+						}
+					}
+				}
+			}
+		}
+	}
 
 	// ---- R1: Add uses the key (and the cache) Get used
 	keySt := c09structOf(get.key.Type())
